@@ -10,10 +10,31 @@ from ..refsem import Ref
 from ..templates import build
 
 
+import logging
+
+
+class _PeriodMarks(logging.Handler):
+    """lcm logs 'Period: t' at the end of every simulated period; used to attribute path-condition
+    conjuncts to periods (nothing in lcm is modified)"""
+
+    def emit(self, record):
+        fk = sj.ACTIVE_FORKER[0]
+        if fk is not None and str(record.msg).startswith("Period:"):
+            fk.marks.append(len(fk.pc))
+
+
+def _install_log_handler():
+    lg = logging.getLogger("lcm")
+    if not any(isinstance(h, _PeriodMarks) for h in lg.handlers):
+        lg.addHandler(_PeriodMarks())
+    lg.propagate = False
+
+
 def get_function(model, target, jit):
     from lcm.entry_point import get_lcm_function
 
-    return get_lcm_function(model, targets=target, jit=jit, debug_mode=False)
+    _install_log_handler()
+    return get_lcm_function(model, targets=target, jit=jit, debug_mode=True)
 
 
 def sym_solve(rec, spec, jit):
@@ -60,10 +81,14 @@ def default_values(tm):
 def confirm_crash(rec, name, exc, conc_thunk, key=None):
     """the real code raised during the symbolic run: confirm with a concrete call; a confirmed
     crash of a valid request is a violation, an unconfirmed one a harness error"""
-    if isinstance(exc, (sj.Unsupported, sj.PathCapExceeded, HarnessError)):
+    if isinstance(exc, (sj.PathCapExceeded, HarnessError)):
         raise exc
     try:
         conc_thunk()
+        if isinstance(exc, sj.Unsupported):
+            raise exc  # the real code runs: the symbolic engine could not follow -> inconclusive
+    except sj.Unsupported:
+        raise
     except Exception as e2:  # noqa: BLE001
         rec.violation(name, {"what": "the generated function raises instead of returning a result", "observed": f"{type(e2).__name__}: {str(e2)[:300]}", "expected": "a result", "inputs": {}}, key=key)
         return True
@@ -93,35 +118,16 @@ def subs_of(S, vals):
 
 
 def replace_topdown(term, mapping):
-    """replace sub-terms (by z3 ast id) top-down; term may be XR / python value"""
-    import sys
-
-    sys.setrecursionlimit(max(sys.getrecursionlimit(), 20000))
+    """replace sub-terms; mapping: {ast id: (expr, replacement)} (targets never contain each other);
+    term may be XR / python value"""
     term = sj.force(term)
+    if not mapping:
+        return term
     if isinstance(term, sj.XR):
         return sj.mk_x(replace_topdown(term.ninf, mapping), replace_topdown(term.val, mapping))
     if not isinstance(term, z3.ExprRef):
         return term
-    memo = {}
-
-    def rw(e):
-        i = e.get_id()
-        if i in mapping:
-            return mapping[i]
-        if i in memo:
-            return memo[i]
-        if e.num_args() == 0:
-            memo[i] = e
-            return e
-        ch = [rw(c) for c in e.children()]
-        if all(a.get_id() == b.get_id() for a, b in zip(ch, e.children())):
-            r = e
-        else:
-            r = e.decl()(*ch)
-        memo[i] = r
-        return r
-
-    return rw(term)
+    return z3.substitute(term, *mapping.values())
 
 
 def is_tagged(e):
@@ -143,7 +149,63 @@ def abstraction_maps(impl_next, ref_next, prefix):
         if not (is_tagged(e) and is_tagged(r)):
             continue  # only syntactically unique (tagged) entries are abstracted
         W = z3.Real(f"{prefix}_{key}")
-        mi[e.get_id()] = W
-        mr[r.get_id()] = W
+        mi[e.get_id()] = (e, W)
+        mr[r.get_id()] = (r, W)
         defs[str(W)] = (e, r)
     return mi, mr, defs
+
+
+# ----------------------------------------------------------------------------------
+# simulation
+# ----------------------------------------------------------------------------------
+def sym_vf(S, ref, T, prefix="V"):
+    """arbitrary value arrays in the documented layout (public argument vf_arr_list)"""
+    return [S.real(f"{prefix}{t}", ref.layout(t)[0]) for t in range(T)]
+
+
+def conc_vf(C, ref, T, prefix="V"):
+    return [C.real(f"{prefix}{t}", ref.layout(t)[0]) for t in range(T)]
+
+
+def frame_terms(df):
+    """DataFrame of a symbolic simulate run -> {column: object array of scalar terms}, index list"""
+    out = {}
+    for col in df.columns:
+        vals = list(df[col].values)
+        out[col] = [sj.force(sj._py(v)) if not isinstance(v, (np.generic,)) else sj.conc(v) for v in vals]
+        out[col] = [sj.conc(v) if isinstance(v, (np.generic, float, int, bool)) else v for v in out[col]]
+    return out, list(df.index)
+
+
+def sym_simulate(rec, tm, S, params, vf, init, jit=True, cap=64, base=(), additional_targets=None, seed=None, target="simulate"):
+    sim, _ = get_function(tm.model, target, jit)
+    kw = {}
+    if additional_targets is not None:
+        kw["additional_targets"] = additional_targets
+    if seed is not None:
+        kw["seed"] = seed
+    if target == "simulate":
+        kw["vf_arr_list"] = vf
+
+    def run():
+        return sim(params, initial_states=init, **kw)
+
+    paths = S.run_paths(run, base=list(base), cap=cap)
+    rec.paths += len(paths)
+    prims = getattr(rec, "primitives", {})
+    for k, v in S.trace.stats.items():
+        prims[k] = v
+    rec.primitives = prims
+    return paths, sim
+
+
+def conc_simulate(tm, sim, vals, ref, n, vf_prefix="V", additional_targets=None, with_vf=True, seed=None):
+    C = Conc(vals)
+    kw = {}
+    if additional_targets is not None:
+        kw["additional_targets"] = additional_targets
+    if with_vf:
+        kw["vf_arr_list"] = conc_vf(C, ref, tm.model.n_periods, vf_prefix)
+    if seed is not None:
+        kw["seed"] = seed
+    return sim(tm.params(C), initial_states=tm.init(C, n), **kw)
